@@ -52,6 +52,25 @@ Theorem C04_commit_deps_isolated : forall appl heads a hs m,
       clock_at_get appl hs (level_actor a k) < max_op_for_actor appl (level_actor a k).
 Proof. exact commit_deps_isolated. Qed.
 
+(* what the covering test of isolate_actor buys: when the chosen actor's seq_index positions are
+   seq - 1 (asserted by the code) and its later changes reach higher op counters (none of them
+   is empty), its previous change is an ancestor of the isolation heads, so the new change
+   continues the actor's chain ... *)
+Theorem C04_isolated_prev_is_ancestor : forall appl heads a hs m p,
+  commit_meta appl heads a (Some hs) = Ok m ->
+  SeqIdx appl (cm_actor m) -> StrictOps appl (cm_actor m) ->
+  prev_change appl (cm_actor m) = Some p -> 1 <= max_op p ->
+  In p (ancestors appl hs).
+Proof. exact isolated_prev_is_ancestor. Qed.
+
+(* ... and NOT otherwise: a change, an empty change, and a transaction isolated at the first
+   change (one actor, all through commits of the model machine) leave the actor's changes
+   without a chain - the third change has seq 3 and does not descend from the second.  The
+   implementation reproduces this (finding reported under C10). *)
+Theorem C04_isolated_commit_breaks_chain_refuted :
+  exists steps m, run_fresh m_empty steps /\ m_run m_empty steps = Ok m /\ ~ ActorChain (applied (m_doc m)).
+Proof. exact isolated_commit_breaks_chain. Qed.
+
 (* heads, as an invariant of every step: after ANY sequence of deliveries (apply_changes, merge,
    load, sync: [SReceive]) and local commits (plain, empty, isolated: [SCommit]) from the empty
    document, the incrementally maintained heads (heads - deps + hash at every applied change)
@@ -102,4 +121,23 @@ Example C04_nonvacuous :
 Proof.
   eexists. split; [vm_compute; reflexivity|]. split; [|split; vm_compute; reflexivity].
   cbn. repeat split; vm_compute; intuition discriminate.
+Qed.
+
+(* non-vacuity of C04_isolated_prev_is_ancestor: actor [1] made two non-empty changes, [2] a
+   concurrent one; a transaction isolated at actor [1]'s latest change is written by [1] *)
+Example C04_isolated_prev_nonvacuous :
+  let appl := [ mkChange 1 [1] 1 1 [] [dummy_op]; mkChange 2 [1] 2 2 [1] [dummy_op];
+                mkChange 3 [2] 1 2 [1] [dummy_op; dummy_op] ] in
+  exists m p, commit_meta appl (heads_of appl) [1] (Some [2]) = Ok m /\ cm_actor m = [1] /\ cm_seq m = 3 /\
+    cm_start m = 4 /\ cm_deps m = [2] /\
+    SeqIdx appl (cm_actor m) /\ StrictOps appl (cm_actor m) /\
+    prev_change appl (cm_actor m) = Some p /\ 1 <= max_op p.
+Proof.
+  eexists. eexists. split; [vm_compute; reflexivity|]. cbn [cm_actor cm_seq cm_start cm_deps].
+  split; [reflexivity|]. split; [reflexivity|]. split; [reflexivity|]. split; [reflexivity|].
+  split; [|split; [|split; [vm_compute; reflexivity|vm_compute; discriminate]]].
+  - intros i c. vm_compute. destruct i as [|[|[|i]]]; intros H; inversion H; subst; vm_compute; reflexivity.
+  - intros c1 c2 H1 H2 A1 A2 Hs.
+    destruct H1 as [<-|[<-|[<-|[]]]]; destruct H2 as [<-|[<-|[<-|[]]]];
+      cbn [ch_actor ch_seq] in *; try discriminate; try lia; vm_compute; reflexivity.
 Qed.
